@@ -58,3 +58,12 @@ def same_seq(got, exp):
 
 class StubLimit(Exception):
     """A stub was used outside the narrow interface it models: inconclusive, never a violation."""
+
+
+def pick(seq, i):
+    """seq[i] for a symbolic index by explicit case split.  (Subscripting a concrete list of classes with a symbolic
+    int makes CrossHair hand back a lazily-chosen proxy whose instantiation forks without bound - measured.)"""
+    for k in range(len(seq)):
+        if i == k:
+            return seq[k]
+    raise IndexError(i)
